@@ -100,3 +100,58 @@ pub fn c20_degenerate_sizes() {
     assert!(Topology::find_neighbors(&3, &0, &i, &r).is_none(), "ndim = 0 must give no neighbourhood");
     kani::cover!(true, "reached end");
 }
+
+// ---- LIST.NEIGHBOR*IDS through the registry -----------------------------------------------------------
+use crate::instr::{run_state, Mode};
+use crate::reg_harness;
+use crate::state::*;
+
+/// size and dimension operands concrete, centre index any i32, radius any f32; missing operands are
+/// covered by the shapes with fewer INTEGERs / no FLOAT.
+fn neighbor_ids(size: i32, dims: i32) {
+    let mut ins = crate::gen::registry::fetch_LIST_NEIGHBORStarIDS();
+    let sh = Shape { ni: 3, nf: 1, niv: 1, ivl: [1, 1, 1], ..SHAPE0 };
+    let mut st = build(&sh);
+    *st.int_stack.get_mut(0).unwrap() = size;
+    *st.int_stack.get_mut(2).unwrap() = dims;
+    run_state(&mut ins, st, &sh, Some(crate::spec::LIST_NEIGHBORStarIDS), Mode::Sem);
+    std::mem::forget(ins);
+}
+macro_rules! nbi {
+    ($name:ident, $size:expr, $dims:expr) => {
+        reg_harness!($name, 10, {
+            neighbor_ids($size, $dims);
+            kani::cover!(true, "reached end");
+        });
+    };
+}
+nbi!(c20_instr_ids_size_neg, -3, 2);
+nbi!(c20_instr_ids_size0, 0, 1);
+nbi!(c20_instr_ids_size1_d1, 1, 1);
+nbi!(c20_instr_ids_size1_d0, 1, 0);
+nbi!(c20_instr_ids_size1_dneg, 1, -2);
+nbi!(c20_instr_ids_size2_d1, 2, 1);
+nbi!(c20_instr_ids_size2_d2, 2, 2);
+nbi!(c20_instr_ids_size2_d7, 2, 7);
+nbi!(c20_instr_ids_size3_d1, 3, 1);
+nbi!(c20_instr_ids_size3_d2, 3, 2);
+nbi!(c20_instr_ids_size3_d3, 3, 3);
+nbi!(c20_instr_ids_size4_d1, 4, 1);
+nbi!(c20_instr_ids_size4_d2, 4, 2);
+nbi!(c20_instr_ids_size4_d3, 4, 3);
+
+/// fewer than three INTEGERs or no FLOAT: nothing is pushed, at most operands are consumed
+fn neighbor_ids_missing(ni: usize, nf: usize) {
+    let mut ins = crate::gen::registry::fetch_LIST_NEIGHBORStarIDS();
+    let sh = Shape { ni, nf, niv: 1, ivl: [1, 1, 1], nb: 1, ..SHAPE0 };
+    let st = build(&sh);
+    kani::assume(crate::instr::pre_top3_int_small(&st));
+    run_state(&mut ins, st, &sh, Some(crate::spec::LIST_NEIGHBORStarIDS), Mode::Sem);
+    std::mem::forget(ins);
+}
+reg_harness!(c20_instr_ids_missing_operands, 10, {
+    neighbor_ids_missing(0, 1);
+    neighbor_ids_missing(2, 1);
+    neighbor_ids_missing(3, 0);
+    kani::cover!(true, "reached end");
+});
